@@ -93,9 +93,9 @@ Definition read_account_volumes (f : features) (s : state) (pit : option Z) (eff
   else None.
 
 (* ListTransactions at a point in time (no filter): timestamp <= t; reverted only if reverted at or before t; metadata as
-   of t.  NOTE: the code tests ACCOUNT_METADATA_HISTORY for the transactions history join (resource_transactions.go). *)
+   of t when TRANSACTION_METADATA_HISTORY is on (the feature test was corrected by a fix: commit in /repo). *)
 Record tx_row := { tr_id : Z; tr_meta : meta; tr_ts : Z; tr_rev : option Z }.
-Definition tx_hist_flag (f : features) : bool := f_acc_hist f.
+Definition tx_hist_flag (f : features) : bool := f_tx_hist f.
 Definition read_transactions (f : features) (s : state) (pit : option Z) : list tx_row :=
   map (fun t => {| tr_id := t_id t;
                    tr_meta := match pit with Some p => if tx_hist_flag f then thist_at (s_thist s) (t_id t) p else t_meta t | None => t_meta t end;
